@@ -43,10 +43,12 @@ class FragmentSpreadsMustNotFormCycles(June2018ReleaseValidationRule):
                         fragments, selected.name.value
                     )
                     if not fragment:
+                        spreaded.pop()
                         continue  # Handled by another validator
                     fragment = fragment[0]
 
                     self._validate_fragment(fragments, fragment, spreaded)
+                    spreaded.pop()
                 else:
                     raise CycleException(fragments, self._extensions)
         return
